@@ -222,9 +222,18 @@ fn run_threads(n: usize, counters: &Arc<Counters>, job: Arc<dyn Fn(usize) -> Opt
     Ok(out)
 }
 
+/// long texts are abbreviated in reported cases
+fn short(t: &str) -> String {
+    if t.len() <= 200 {
+        t.to_string()
+    } else {
+        format!("{}... ({} bytes, the first character repeated)", &t[..40], t.len())
+    }
+}
+
 fn fail_of(w: &World, pi: usize, ti: usize, kind: usize, mode: &str, threads: usize, round: usize, got: Res) -> Failure {
     (
-        json!({"pattern": w.pats[pi], "text": w.texts[ti], "call": KIND_NAMES[kind], "mode": mode, "threads": threads, "round": round}),
+        json!({"pattern": w.pats[pi], "text": short(&w.texts[ti]), "call": KIND_NAMES[kind], "mode": mode, "threads": threads, "round": round}),
         Fail::new(if matches!(got, Res::Panic(_)) { "panic" } else { "result-differs" }, format!("{:?}", w.expected[pi][ti][kind]), format!("{:?}", got)),
     )
 }
@@ -471,7 +480,7 @@ pub fn run(ctx: &RunCtx) -> Outcome {
             let reps = if hot_world.texts[ti].len() > 10_000 { 3usize } else { 60usize };
             match hammer_round(&hot_world, &counters, pi, ti, nthreads, reps, round, mode) {
                 Err(what) => {
-                    first_fail = Some(stuck(what, json!({"round": round, "threads": nthreads, "mode": mode, "pattern": hot_world.pats[pi], "text": hot_world.texts[ti]})));
+                    first_fail = Some(stuck(what, json!({"round": round, "threads": nthreads, "mode": mode, "pattern": hot_world.pats[pi], "text": short(&hot_world.texts[ti])})));
                     break 'rounds;
                 }
                 Ok(fails) => {
